@@ -3,8 +3,11 @@ import json, os, subprocess, tempfile, shutil, sys
 from vlib import core
 from checks import codec_common as cc
 
-THEOREMS = ['table_unchanged', 'param_consts', 'tv_tlv_ranges', 'header_kind', 'tv_params_fixed', 'tlv_length_exact', 'tv_header']
-MODULES = ['LLRP.Model.Layout', 'LLRP.Model.Codec', 'LLRP.Model.Schema', 'LLRP.Model.Bytes']
+THEOREMS = ['table_unchanged', 'param_consts', 'tv_tlv_ranges', 'header_kind', 'tv_params_fixed', 'tlv_length_exact', 'tv_header',
+            'layout_wf', 'encode_eq_layout', 'encode_eq_layout_gen', 'implSize_exact', 'implSize_lt', 'fits_length_lt', 'implSize_mod', 'oversized_rejected',
+            'tlv_lengths_exact', 'tlv_lengths_exact_param', 'tlv_lengths_exact_encode', 'tlv_lengths_exact_fits', 'tlv_lengths_exact_fits_param', 'decode_layout_of_roundtrip']
+MODULES = ['LLRP.Model.Layout', 'LLRP.Model.LayoutWF', 'LLRP.Model.Codec', 'LLRP.Model.Schema', 'LLRP.Model.Bytes',
+           'LLRP.Proofs.Bytes', 'LLRP.Proofs.LayoutFields', 'LLRP.Proofs.LayoutParam', 'LLRP.Proofs.LayoutBlocks']
 RULE = ('per type (169): random well-formed values (generator of C01, own seed stream): Go MarshalBinary bytes must equal the declarative layout over the PINNED table; '
         'the 15 real-reader recordings of testdata/: Go decode = model decode, value lays out to the recorded bytes; '
         'plus the regeneration check: generated_*.go = generate_param_code.py(messages.yaml). distinct = distinct request lines; non-trivial = value with a sub-parameter or variable field')
